@@ -285,17 +285,26 @@ func TestC15Names(t *testing.T) {
 // agrees with the documented rule and never yields separators.
 type C15Inst struct {
 	Raw string `json:"raw"`
+	// Fallback: no instance name is configured; Raw is the host name the syncer falls back to
+	Fallback bool `json:"fallback,omitempty"`
 }
 
 func TestC15Sanitiser(t *testing.T) {
 	st := memory.New()
 	vcore.Run(t, vcore.Config{Property: "C15",
-		Rule: "rapid: arbitrary instance strings through syncer.New + instanceID; non-trivial = string contains a character outside the safe set"},
+		Rule: "rapid: arbitrary instance strings (configured, or - a third - as the host name the syncer falls back to when none is configured; incl. dotted names and names with underscores) through syncer.New + instanceID; non-trivial = string contains a character outside the safe set"},
 		func(t *rapid.T) C15Inst {
-			return C15Inst{Raw: rapid.OneOf(rapid.StringN(1, 30, 90), rapid.StringOfN(rapid.RuneFrom([]rune("ab_.-/\\ \x00é")), 1, 12, -1)).Draw(t, "raw")}
+			return C15Inst{Raw: rapid.OneOf(rapid.StringN(1, 30, 90), rapid.StringOfN(rapid.RuneFrom([]rune("ab_.-/\\ \x00é")), 1, 12, -1),
+				rapid.SampledFrom([]string{"ns1.example.com", "rack_7", "lab__rack7", "plainhost", "a.b", "x__y.z"})).Draw(t, "raw"),
+				Fallback: rapid.IntRange(0, 2).Draw(t, "fallback") == 0}
 		},
 		func(c C15Inst, o *vcore.Obs) error {
 			conf := config.Config{Instance: c.Raw, LMDBs: map[string]config.LMDB{}}
+			if c.Fallback {
+				conf.Instance = ""
+				defer syncer.VerifSetHostname(syncer.VerifSetHostname(c.Raw))
+				o.Class("host-name-as-instance-name")
+			}
 			s, err := syncer.New("db", nil, st, conf, config.LMDB{SchemaTracksChanges: true}, syncer.Options{})
 			if err != nil {
 				return fmt.Errorf("syncer.New: %v", err)
